@@ -4,8 +4,9 @@
    are the definitions of Extracted/Analytic.v (regenerated from analytic.py on every run).
    This file contains only statements closed by [exact <lemma>] and their assumptions.        *)
 From Coq Require Import ZArith Reals List.
+Import ListNotations.
 From FF Require Import Base.Ops Inst.RInst Base.RAlg Model.Numeric Spec.DDBase Spec.DD Extracted.Analytic
-  Model.Tie.C19 Proofs.DD.
+  Model.Tie.C19 Proofs.DD Proofs.CMBase Proofs.DDModel Model.BasisModel.
 (* libraries the generated correspondence cases import (kept in the dependency cone of this file) *)
 From FF Require Model.Consts Inst.Param Corr.Agree Corr.Obs.
 Local Open Scope R_scope.
@@ -37,6 +38,12 @@ Theorem C19_cdd_closed : forall (g : nat) z, dd_F (cdd_times g) z = CDD z (Z.of_
 Proof. exact cdd_closed. Qed.
 Print Assumptions C19_cdd_closed.
 
+(* the pulse-time recursion of CDD_g and the product of the first g Rademacher functions on 2^g equal
+   segments describe the same sequence *)
+Theorem C19_cdd_rademacher : forall (g : nat) z, dd_y (cdd_times g) z = rad_y g z.
+Proof. exact cdd_rademacher. Qed.
+Print Assumptions C19_cdd_rademacher.
+
 (* Uhrig DD, every order n, every z *)
 Theorem C19_udd_closed : forall (n : nat) z, dd_F (udd_times n) z = UDD z (Z.of_nat n).
 Proof. exact udd_closed. Qed.
@@ -54,3 +61,41 @@ Theorem C19_segment_is_model : forall thr w tg dt, thr < Rabs (w * dt) -> 0 <= t
   csub' (cexp' (w * (tg + dt))) (cexp' (w * tg)).
 Proof. exact foi_segment_dd. Qed.
 Print Assumptions C19_segment_is_model.
+
+(* link of the specification to the numeric model for WHOLE sequences (every number of pulses): the control
+   matrix the package's formula computes from the spectral data of the idle control Hamiltonian
+   (eigenvalues 0, eigenvectors 1; propagators and time grid recomputed by the model) for a noise operator
+   whose sensitivity alternates in sign satisfies  i w B_jk(w) = tr(N_j C_k) y(w tau)  on the masked branch *)
+Theorem C19_model_is_spec : forall d thr om bs ns nc tau ts j k o,
+  0 <= thr -> (j < length ns)%nat -> (k < length bs)%nat -> (o < length om)%nat ->
+  let dts := dd_dts tau 0 ts in
+  sens_row (length dts) nc j = dd_signs 1 (length dts) ->
+  Forall (fun dt => thr < Rabs (vg RO om o * dt)) dts ->
+  cmul' (cmul' ic (cofr RO (vg RO om o)))
+    (a3get RO (control_matrix_from_scratch RO d thr (repeat (ev0 d) (length dts)) (repeat (mid RO d) (length dts))
+              (propagators RO d (repeat (ev0 d) (length dts)) (repeat (mid RO d) (length dts)) dts)
+              om bs ns nc dts (times RO dts)) j k o) =
+  cmul' (mtrprod RO d (nthm ns j) (nthm bs k)) (dd_y ts (vg RO om o * tau)).
+Proof. exact cm_is_spec. Qed.
+Print Assumptions C19_model_is_spec.
+
+(* ... and for the noise operator sigma_z/2 in the basis Basis.pauli(1) the fidelity filter function of the
+   package's formula times w^2 IS dd_F(w tau) *)
+Theorem C19_filter_function_is_dd_F : forall thr om nc tau ts o,
+  0 <= thr -> (o < length om)%nat ->
+  let dts := dd_dts tau 0 ts in
+  sens_row (length dts) nc 0 = dd_signs 1 (length dts) ->
+  Forall (fun dt => thr < Rabs (vg RO om o * dt)) dts ->
+  let Bm := control_matrix_from_scratch RO 2 thr (repeat (ev0 2) (length dts)) (repeat (mid RO 2) (length dts))
+              (propagators RO 2 (repeat (ev0 2) (length dts)) (repeat (mid RO 2) (length dts)) dts)
+              om (pauli_basis RO 1) [sz_half] nc dts (times RO dts) in
+  cmul' (cofr RO (vg RO om o * vg RO om o)) (a3get RO (filter_function RO 1 (length (pauli_basis RO 1)) (length om) Bm) 0 0 o) =
+  cofr RO (dd_F ts (vg RO om o * tau)).
+Proof. exact ff_is_dd_F. Qed.
+Print Assumptions C19_filter_function_is_dd_F.
+
+Example C19_filter_function_hypotheses_sat :
+  let ts := [1/2] in let nc := [[1; Ropp 1]] in let om := [3] in
+  sens_row (length (dd_dts 1 0 ts)) nc 0 = dd_signs 1 (length (dd_dts 1 0 ts)) /\
+  Forall (fun dt => 1/10 < Rabs (vg RO om 0 * dt)) (dd_dts 1 0 ts).
+Proof. exact ff_is_dd_F_sat. Qed.
